@@ -37,12 +37,20 @@ def check_form(run, form, result, parallel=False, tag=""):
     if steps > MAX_STEPS:
         run.skip(mon, "too large for the loop oracle")
         return
-    dV = form.dV
+    # what the caller handed to the constructor (integrand, differential volume, flags), not what the object stored
+    given = GIVEN.get(id(form))
+    given = given[1] if given is not None and given[0] is form else {}
+    dV = given.get("dV", form.dV)
+    fun = given.get("fun", form.fun)
+    grad_v = given.get("grad_v") if given.get("grad_v") is not None else form.grad_v
+    grad_u = given.get("grad_u") if given.get("grad_u") is not None else form.grad_u
+    if given:
+        run.units["oracle-uses-constructor-arguments"] += 1
     if not isinstance(dV, np.ndarray) or dV.ndim != 2:
         run.skip(mon, "non-standard dV")
         return
     try:
-        ref = OA.ref_form(form.fun, form.v, dV, form.u, list(form.grad_v), None if form.u is None else list(form.grad_u),
+        ref = OA.ref_form(fun, form.v, dV, form.u, list(grad_v), None if form.u is None else list(grad_u),
                           form.mode)
     except Exception as exc:
         run.skip(mon, "integrand layout not interpretable by the oracle: %s" % type(exc).__name__)
@@ -69,8 +77,20 @@ def check_form(run, form, result, parallel=False, tag=""):
                         "max_abs_error": maxabs(got - ref)})
 
 
+GIVEN = {}
+
+
 def attach_hook(run):
     from felupe.assembly._integral import IntegralForm
+
+    def init_post(obj, a):
+        fun = a.get("fun")
+        GIVEN[id(obj)] = (obj, {"fun": list(fun) if isinstance(fun, (list, tuple)) else fun, "dV": a.get("dV"),
+                                "grad_v": a.get("grad_v"), "grad_u": a.get("grad_u")})
+        if len(GIVEN) > 2000:
+            GIVEN.pop(next(iter(GIVEN)))
+
+    attach.wrap_init(IntegralForm, init_post)
 
     def post(self, args, kwargs, ctx, result, exc):
         if exc is not None:
